@@ -8,6 +8,9 @@ A *spec* is what replay files store.  Shape:
    "headers": "default" | [] | [{kwargs}...] | [[{kwargs}|None ...] ...],
    "body": {kwargs} | [{kwargs}...], "footnote": {kwargs}|None, "source": {kwargs}|None,
    "figure": {"files":[{"name":..,"hex":..}], ...kwargs}}
+             one entry per POSITION of `figures`.  "name" may have directories; an entry without "hex" names a file
+             another entry writes (the same file listed again, possibly spelled differently: "spell" is one of
+             FIG_SPELLINGS; "name" may contain `..`); {"name":.., "symlink_to": target} makes a symbolic link.
 Tuples (per-row attribute vectors) are written {"__tuple__": [...]}.
 Other spellings of an attribute value that the constructors accept (array-likes) are written with a marker too:
   {"__ndarray__": x}    numpy.array(x)         x a scalar (0-d array), a flat list (1-D) or a nested list (2-D)
@@ -20,6 +23,7 @@ from __future__ import annotations
 
 import io
 import contextlib
+import os
 import tempfile
 from pathlib import Path
 
@@ -179,6 +183,27 @@ def _kw(d):
     return {k: _untuple(v) for k, v in (d or {}).items()}
 
 
+FIG_SPELLINGS = ("str", "path", "rel", "relpath", "dot", "dotdot")
+
+
+def spell_path(p: Path, how=None):
+    """one file, several ways of naming it to `RTFFigure(figures=…)`: absolute str (default) / Path object, relative
+    to the current directory (str / Path), with a `.` or a `..` component (str: pathlib would fold the `.`)"""
+    if how in (None, "str"):
+        return str(p)
+    if how == "path":
+        return p
+    if how == "rel":
+        return os.path.relpath(p)
+    if how == "relpath":
+        return Path(os.path.relpath(p))
+    if how == "dot":
+        return os.path.join(str(p.parent), ".", p.name)
+    if how == "dotdot":
+        return os.path.join(str(p.parent), "..", p.parent.name, p.name)
+    raise ValueError(f"unknown path spelling {how!r}")
+
+
 def build(spec, workdir: str | None = None):
     """Construct the RTFDocument described by spec (raises what the constructors raise)."""
     import rtflite as rtf
@@ -190,11 +215,18 @@ def build(spec, workdir: str | None = None):
         files = fig.pop("files")
         wd = Path(workdir or tempfile.mkdtemp(prefix="rtfv_fig_"))
         paths = []
-        for i, f in enumerate(files):
+        for i, f in enumerate(files):          # every file is on disk before any path is handed over
             p = wd / f["name"]
+            if "hex" in f or "symlink_to" in f:
+                p.parent.mkdir(parents=True, exist_ok=True)
+                if p.is_symlink():             # a link left by an earlier document: never write through it
+                    p.unlink()
             if "hex" in f:
                 p.write_bytes(bytes.fromhex(f["hex"]))
-            paths.append(str(p))
+            elif "symlink_to" in f:
+                os.symlink(f["symlink_to"], p)  # target relative to the link's directory
+        for i, f in enumerate(files):
+            paths.append(spell_path(wd / f["name"], f.get("spell")))
         kw["rtf_figure"] = rtf.RTFFigure(figures=paths if len(paths) != 1 or fig.pop("_as_list", False) else paths[0],
                                          **_kw(fig))
     elif kind == "multi":
